@@ -5,7 +5,7 @@ From AV Require Import Base.Util Model.Consumer Proofs.ConsumerBase Proofs.Consu
   Proofs.ConsumerStop Proofs.ConsumerStopOk Proofs.ConsumerC13Top Proofs.ConsumerInv Proofs.ConsumerShut Proofs.ConsumerRun
   Proofs.ConsumerFuel Proofs.ConsumerShutFlags Proofs.ConsumerNotStarted Proofs.ConsumerFuelEnoughStop
   Proofs.ConsumerFuelEnough Proofs.ConsumerFuelEnoughLoop Proofs.ConsumerFuelEnoughRun Proofs.ConsumerShutInvNC Proofs.ConsumerShutInvRC
-  Proofs.ConsumerShutInv.
+  Proofs.ConsumerShutInv Proofs.ConsumerShutInvFam Proofs.ConsumerShutInvTop.
 Open Scope Z_scope.
 
 (* In EVERY state in which stop() can be called (not already inside stop(), not inside the auto-commit timer callback
@@ -79,17 +79,16 @@ Theorem C13_restart_delivers : forall fuel s off s1 o1 offs s2 o2 m ms fo,
 Proof. exact delivers_again. Qed.
 Print Assumptions C13_restart_delivers.
 
-(* a stop() that returns clears the shutdown bookkeeping (_shuttingdown, _shutdown_d) of a graceful shutdown it interrupts,
-   in EVERY state where that bookkeeping is consistent: a pending shutdown Deferred has its continuation registered (on the
-   processor Deferred or among the commit waiters) and _shuttingdown is not set without it.  _partial: that every
-   reachable state is consistent in this sense is not proved (it is item 5 of Model/Consumer.v `invs`, evaluated by the
-   harness on every state of every run). *)
-Theorem C13_stop_clears_shutdown_partial : forall fuel s s' o,
+(* a stop() that returns clears the shutdown bookkeeping (_shuttingdown, _shutdown_d) of a graceful shutdown it interrupts, in
+   EVERY model state where that bookkeeping is consistent: a pending shutdown Deferred has its continuation registered (on
+   the processor Deferred or among the commit waiters) and _shuttingdown is not set without it.  That every reachable state
+   is consistent is C13_shutdown_bookkeeping below; C13_stop_clears_shutdown is the statement without the hypothesis. *)
+Theorem C13_stop_clears_shutdown_consistent : forall fuel s s' o,
   run fuel KStop s = (Ok tt, s', o) -> fuel_ok o = true -> s_stopping s = false ->
   (s_shutd s = true -> has_cont s = true) -> (s_shutting s = true -> s_shutd s = true) ->
   s_shutting s' = false /\ s_shutd s' = false.
 Proof. exact stop_clears. Qed.
-Print Assumptions C13_stop_clears_shutdown_partial.
+Print Assumptions C13_stop_clears_shutdown_consistent.
 
 (* stop() never raises: in EVERY state with a start Deferred whose retry timer is not stale (not already fired or cancelled:
    ConsumerInv.j3 says so of every reachable state with _stopping clear), whoever calls it - the application, the processor,
@@ -103,8 +102,7 @@ Print Assumptions C13_stop_never_raises.
    Hc: then the continuation is registered on the processor result or among the commit waiters) together with the base
    facts it needs (Base: no block in progress => no processor result awaited; a stale retry timer => not started or
    stopping); a shutdown Deferred already cleared stays cleared; the block in progress is kept or the consumer is stopped.
-   This is the stop() step of the reachable-state invariant that would remove the hypothesis of
-   C13_stop_clears_shutdown_partial; the steps for the other methods are not all proved. *)
+   This is the stop() step of the reachable-state invariant C13_shutdown_bookkeeping. *)
 Theorem C13_stop_preserves_shutdown_bookkeeping : forall fuel s r s' o,
   run fuel KStop s = (r, s', o) -> fuel_ok o = true -> Base s -> s_stopping s = false ->
   Base s' /\ MBs s s' /\ (s_proc s = None -> s_proc s' = None) /\ s_stopping s' = false /\
@@ -178,6 +176,36 @@ Theorem C13_not_started_commit_idle_nested : forall fuel k s r s' o,
 Proof. exact run_q. Qed.
 Print Assumptions C13_not_started_commit_idle_nested.
 
+(* THE SHUTDOWN BOOKKEEPING IS CONSISTENT in every state between two events of every run: _shuttingdown is set exactly while
+   the shutdown Deferred is pending, and then the continuation that completes the shutdown is registered - on the pending
+   processor result or among the commit waiters (sb_ok = item 5 of Model/Consumer.v `invs`).  By induction over all nested
+   executions with a two-mode precondition for the message loop (consistent, or inert while _shuttingdown is set):
+   Proofs/ConsumerShutInvFam.v, ConsumerShutInvTop.v. *)
+Theorem C13_shutdown_bookkeeping : forall n0 fuel evs c buf,
+  all_fuel_ok (run_steps fuel (init c n0 buf) evs) = true ->
+  forallb (fun t => sb_ok (t_post t)) (run_steps fuel (init c n0 buf) evs) = true.
+Proof. exact bookkeeping_run. Qed.
+Print Assumptions C13_shutdown_bookkeeping.
+(* hence, in every state between two events of every run, ANY stop() that returns - the application's, one made by the
+   processor, the one that ends a shutdown - leaves _shuttingdown clear and no shutdown Deferred behind *)
+Theorem C13_stop_clears_shutdown : forall n0 fuel evs c buf,
+  all_fuel_ok (run_steps fuel (init c n0 buf) evs) = true ->
+  Forall (fun t => forall f s' o, run f KStop (t_post t) = (Ok tt, s', o) -> fuel_ok o = true ->
+                     s_shutting s' = false /\ s_shutd s' = false)
+         (run_steps fuel (init c n0 buf) evs).
+Proof. exact stop_clears_run. Qed.
+Print Assumptions C13_stop_clears_shutdown.
+(* and after EVERY application stop() of a running consumer, in every run: the bookkeeping is clear and the stopped consumer
+   can be started again and delivers - start(off) sends the fetch for off, the reply to it is handed to the processor
+   (C13_restart_delivers without its hypothesis on _shuttingdown) *)
+Theorem C13_stop_then_restart_delivers : forall n0 fuel evs c buf,
+  all_fuel_ok (run_steps fuel (init c n0 buf) evs) = true ->
+  Forall (fun t => t_ev t = EStop -> s_startd (t_pre t) <> None ->
+            s_shutting (t_post t) = false /\ s_shutd (t_post t) = false /\ restarts_and_delivers fuel (t_post t))
+         (run_steps fuel (init c n0 buf) evs).
+Proof. exact stop_then_restart_run. Qed.
+Print Assumptions C13_stop_then_restart_delivers.
+
 (* C13_quiescent_after_stop over all runs: EVERY stop() of a running consumer, in every run, returns (never raises) and
    leaves the consumer quiescent, having sent / scheduled / delivered nothing; the retry limit is the configured one *)
 Theorem C13_every_stop_quiescent : forall n0 fuel evs c buf,
@@ -218,7 +246,7 @@ Print Assumptions C13_fuel_monotone_nested.
    re-entrant calls).  In EVERY state, stop() run with fuel at least |_commit_ds| + 6 never runs out of fuel (PF: the
    outcomes held back until a surrounding shutdown() returns carry no out-of-fuel marker; between events the list is
    empty).  With C13_fuel_monotone_nested this discharges the hypothesis fuel_ok of C13_quiescent_after_stop,
-   C13_stop_never_fails_start and C13_stop_clears_shutdown_partial, and fuel_ok of every EStop step. *)
+   C13_stop_never_fails_start and C13_stop_clears_shutdown_consistent, and fuel_ok of every EStop step. *)
 Theorem C13_stop_fuel_enough : forall fuel s r s' o,
   run fuel KStop s = (r, s', o) -> (length (s_cds s) + 6 <= fuel)%nat -> PF s -> fuel_ok o = true /\ PF s'.
 Proof. exact stop_enough. Qed.
